@@ -1,6 +1,5 @@
-(* Property theorems for C10 (constant folding preserves evaluation) and C11 (evaluation never
-   panics).  Nothing but statements closed by [exact] / computation on concrete instances.
-   The statements are pinned again in coq/audit/C10.v and coq/audit/C11.v.
+(* Property theorems for C10 (constant folding preserves evaluation).  Nothing but statements closed by [exact] / computation on concrete instances.
+   The statements are pinned again in coq/audit/C10.v.
 
    Vocabulary:  fold O e : option expr   the folder of optimize.rs (None = the folder panics);
    eval O X env e : outcome value        eval_expr_with_functions on event env (Val / NoVal / Panic);
@@ -11,7 +10,7 @@
    helpers; eval64 / fold64 are the binary64 (Flocq) instance that the correspondence check runs. *)
 From Coq Require Import String.
 From VP Require Import Base.Tactics Expr.Syntax Expr.Float Expr.Gen_EvalTables Expr.Gen_FoldRules Expr.Model
-  Expr.ProofsBase Expr.ProofsC10 Expr.ProofsC10Total Expr.ProofsC11 Expr.B64 Expr.Run.
+  Expr.ProofsBase Expr.ProofsC10 Expr.ProofsC10Total Expr.B64 Expr.Run.
 Close Scope string_scope.
 Local Open Scope list_scope.
 Local Open Scope Z_scope.
@@ -74,40 +73,3 @@ Example C10_overflow_left_for_runtime :
   run_case (e1 Neg (ei i64_min)) [ev [] []] = "K0|F:U(Neg,i-9223372036854775808)|N;N"%string.
 Proof. repeat split; vm_compute; reflexivity. Qed.
 
-(* ------------------------------------------------------------------ C11 *)
-
-(* Evaluating any expression on any event never panics (nor aborts through the unbounded
-   self-recursion of the final match arm): the outcome is a value or no value. *)
-Theorem C11_no_panic : forall (O : fops) (X : xops O) (env : event O) (e : expr O),
-  eval O X env e <> Panic.
-Proof. exact eval_no_panic. Qed.
-
-Theorem C11_no_panic_b64 : forall (env : event b64ops) (e : E), eval64 env e <> Panic.
-Proof. intros env e. exact (C11_no_panic b64ops xb64 env e). Qed.
-
-(* every `"name" [if arity] =>` arm of eval_builtin_function is modelled, in the same order with
-   the same arity guard *)
-Theorem C11_builtins_covered :
-  map (fun x : string * arity * builtin => (fst (fst x), snd (fst x))) model_builtins = builtin_arms.
-Proof. vm_compute. reflexivity. Qed.
-
-(* non-vacuity: the primitives the model is built from do panic where Rust does -- raw i64
-   arithmetic, slicing and indexed assignment out of range -- so C11_no_panic is a statement
-   about how the evaluator guards them, not about an outcome type without a Panic *)
-Example C11_raw_add_panics : int2 Raw IAdd i64_max 1 = Panic.
-Proof. vm_compute. reflexivity. Qed.
-Example C11_raw_div_panics : int2 Raw IDiv i64_min (-1) = Panic /\ int2 Wrapping IRem 5 0 = Panic.
-Proof. vm_compute. split; reflexivity. Qed.
-Example C11_raw_abs_panics : int1 Raw IAbs i64_min = Panic.
-Proof. vm_compute. reflexivity. Qed.
-Example C11_slice_out_of_range_panics : slice_raw [1; 2; 3] 2 1 = Panic /\ set_raw [1; 2] 2 0 = Panic.
-Proof. vm_compute. split; reflexivity. Qed.
-(* ... and the guarded evaluator gives no value on the extreme inputs of the property text *)
-Example C11_extremes_have_no_value :
-  let x := [120%N] in
-  let env := ev [65%N] [(x, vi i64_min)] in
-  map (fun e => r_outcome (eval64 env e))
-      [e2 Add (ex x) (ei (-1)); e2 Div (ex x) (ei (-1)); e2 Mod (ex x) (ei (-1)); e1 Neg (ex x);
-       ecall (ex (lit "abs")) [(None, ex x)]; eomem (ex x) [121%N]; e2 Sub (ex x) (ei (-1))]
-  = ["N"; "N"; "N"; "N"; "N"; "N"; "V:i-9223372036854775807"]%string.
-Proof. vm_compute. reflexivity. Qed.
